@@ -11,6 +11,8 @@ Progs ==
     CASE Scenario = "split-split"  -> [t \in Threads |-> <<Node(1, 3, 1)>>]
       [] Scenario = "link-link"    -> [t \in Threads |-> <<Link(1, 3, FALSE)>>]
       [] Scenario = "split-link"   -> [t \in Threads |-> IF t = 1 THEN <<Node(1, 3, 1)>> ELSE <<Link(1, 3, FALSE)>>]
+      \* a split recorded with NON-consecutive numbers (another thread draws a number between the two calls) and re-used later
+      [] Scenario = "split-linksplit" -> [t \in Threads |-> IF t = 1 THEN <<Node(1, 3, 1)>> ELSE <<Link(1, 3, FALSE), Node(1, 3, 1)>>]
       [] Scenario = "two-each"     -> [t \in Threads |-> IF t = 1 THEN <<Node(1, 3, 1), Link(1, 3, FALSE)>> ELSE <<Link(1, 3, FALSE), Node(1, 3, 1)>>]
 Emit == /\ AllDone /\ sched # <<>>
         /\ PrintT(ToJson([scenario |-> Scenario, threads |-> Cardinality(Threads), ninn0 |-> NInn0, nnode0 |-> NNode0,
